@@ -2,7 +2,7 @@
    compress/zlib enters as three explicit function parameters (deflate, inflate, inflate_strict) and
    the hypotheses zlib_inverse / zlib_fits / zlib_strict_inverse; nothing is assumed globally. *)
 From Coq Require Import List NArith ZArith.
-From GoMC Require Import Base.Bytes Base.Dec Gen.Consts Model.C05 Model.C07 Proofs.C07.
+From GoMC Require Import Base.Bytes Base.Dec Gen.Consts Model.C05 Model.C07 Proofs.C07 Proofs.C07_spec.
 Import ListNotations.
 Open Scope N_scope.
 
@@ -52,6 +52,20 @@ Theorem C07_pool_irrelevant :
   pack deflate thr pool p = pack deflate thr pool' p.
 Proof. intros deflate. exact (pack_pool_irrelevant deflate (fun _ => None) (fun _ => None)). Qed.
 
+(* what the receiver does with ANY frame Pack emits, also outside the domain (payloads beyond the
+   maximum, huge thresholds): accepted exactly when own_accepts says so - arithmetic on lengths,
+   used by the correspondence run for payloads too long for the list model *)
+Theorem C07_own_frame_verdict :
+  forall (deflate : list N -> list N) (inflate : list N -> option (list N))
+         (thr : Z) (pool pool' : list N) (old : rstate) (id : Z) (data rest : list N),
+  in_sw 32 id -> (1 + Z.of_N (len32 id) + Z.of_N (lenN data) < 2147483648)%Z ->
+  inflate (deflate (write32 id ++ data)) = Some (write32 id ++ data) ->
+  (Z.of_N (lenN (deflate (write32 id ++ data))) < 2147483648 - 5)%Z ->
+  run_flat (unpack inflate thr pool' old) (pack deflate thr pool (id, data) ++ rest) =
+  if own_accepts thr id (lenN data) then FOk (received old (id, data)) rest
+  else FErr (if (0 <=? thr)%Z then eTooLarge else eLength).
+Proof. intros deflate inflate. exact (own_frame_verdict deflate inflate inflate). Qed.
+
 (* rejection: for EVERY byte string s whose header the receiver can parse. Declared size =
    Length - len(id) without compression; the data-length field of the delimited frame with
    compression (negative, above the maximum, or non-zero and below the threshold). *)
@@ -74,6 +88,34 @@ Theorem C07_reject :
   end ->
   is_err (run_flat (unpack inflate thr pool old) s) = true.
 Proof. intros inflate. exact (reject (fun x => x) inflate inflate). Qed.
+
+(* the same clause with the headers parsed by the SPECIFICATION's VarInt reader (spec_varint, any
+   encoding of up to five groups): the receiver's reader agrees with it on every byte string *)
+Theorem C07_varint_reader_agrees :
+  forall (s : list N) (v : Z) (r : list N), all_bytes s -> spec_varint s = Some (v, r) ->
+  exists n, run_flat read32 s = FOk (v, n) r.
+Proof. exact read32_of_spec. Qed.
+Theorem C07_reject_spec :
+  forall (inflate : list N -> option (list N)) (thr : Z) (pool : list N) (old : rstate) (s : list N),
+  all_bytes s ->
+  match spec_varint s with
+  | Some (L, s1) =>
+      if (thr <? 0)%Z then
+        match spec_varint s1 with
+        | Some (_, s2) =>
+            let n := Z.of_N (lenN s1 - lenN s2) in (L - n < 0 \/ L - n > 2097152)%Z
+        | None => False
+        end
+      else
+        Z.to_N L <= lenN s1 /\
+        match spec_varint (takeN (Z.to_N L) s1) with
+        | Some (DL, _) => declared_bad thr DL
+        | None => False
+        end
+  | None => False
+  end ->
+  is_err (run_flat (unpack inflate thr pool old) s) = true.
+Proof. exact reject_spec. Qed.
 
 Theorem C07_reject_plain_canonical :
   forall (inflate : list N -> option (list N)) (thr : Z) (pool : list N) (old : rstate)
@@ -162,7 +204,10 @@ Print Assumptions C07_stream_packets.
 Print Assumptions C07_conformant.
 Print Assumptions C07_pack_header.
 Print Assumptions C07_pool_irrelevant.
+Print Assumptions C07_own_frame_verdict.
 Print Assumptions C07_reject.
+Print Assumptions C07_varint_reader_agrees.
+Print Assumptions C07_reject_spec.
 Print Assumptions C07_reject_plain_canonical.
 Print Assumptions C07_reject_compressed_canonical.
 Print Assumptions C07_total.
